@@ -36,7 +36,7 @@ def cellTag (k ctx header iv msg : Bytes) : Bytes :=
   fixLen 16 (H (k ++ leBytes 8 ctx.length ++ ctx ++ header ++ iv ++ msg))
 
 def enc (key ctx msg nonce : Bytes) : Option Bytes :=
-  if key = [] ∨ msg = [] ∨ nonce.length ≠ nonceLen then none else
+  if key = [] ∨ msg = [] ∨ nonce.length ≠ nonceLen ∨ maxMsgLen ≤ msg.length then none else
     let k := H key
     let hdr := cellHeader msg.length
     some (hdr ++ nonce ++ cellTag H k ctx hdr nonce msg ++ xorStream H k nonce 0 msg)
@@ -47,7 +47,7 @@ def dec (key ctx data : Bytes) : Option Bytes :=
     let iv := (data.drop 16).take 12
     let tag := (data.drop 28).take 16
     let body := data.drop 44
-    if hdr ≠ cellHeader body.length ∨ body.length ≥ 2^32 then none else
+    if hdr ≠ cellHeader body.length ∨ maxMsgLen ≤ body.length then none else
       let k := H key
       let msg := xorStream H k iv 0 body
       if cellTag H k ctx hdr iv msg = tag then some msg else none
@@ -102,7 +102,7 @@ def msgHeader (msgLen : Nat) : Bytes := msgMagic ++ leBytes 4 (wrapOverhead + ms
 def msgTag (k header iv msg : Bytes) : Bytes := fixLen 32 (H (k ++ header ++ iv ++ msg))
 
 def wrap (priv pub msg nonce : Bytes) : Option Bytes :=
-  if msg = [] ∨ nonce.length ≠ nonceLen then none else
+  if msg = [] ∨ nonce.length ≠ nonceLen ∨ maxMsgLen ≤ msg.length then none else
     match shared H priv pub with
     | none => none
     | some k =>
@@ -118,7 +118,7 @@ def unwrap (priv pub data : Bytes) : Option Bytes :=
       let iv := (data.drop 8).take 12
       let tag := (data.drop 20).take 32
       let body := data.drop 52
-      if hdr ≠ msgHeader body.length ∨ data.length ≥ 2^32 then none else
+      if hdr ≠ msgHeader body.length ∨ maxMsgLen ≤ body.length then none else
         let msg := xorStream H k iv 0 body
         if msgTag H k hdr iv msg = tag then some msg else none
 
@@ -129,6 +129,7 @@ def ops : CryptoOps where
   unwrap := unwrap H
   pubOf := pubOf H
   validPriv := fun v => (privExp H v).isSome
+  privOfSeed := privOfSeed H
   hmac := fun k m => H (k ++ m)   -- placeholder for the generic instance; `shimOps` overrides it
   sha256 := H
 
